@@ -1,8 +1,10 @@
 CONSTANTS
   MaxLen = 4
   Widths <- WQuick
+  Kinds <- K6
   Heights <- HQuick
   Repaired = FALSE
+  Measure = TRUE
 SPECIFICATION Spec
 INVARIANTS OracleSane NoOverhang ImplConforms
 CHECK_DEADLOCK FALSE
